@@ -190,6 +190,11 @@ class CommandPipeline:
             # taking the terminal away from the `less` command, causing `less`
             # to stop.
             pipeline_group = os.getpgid(0)
+        # Terminal attributes as they are before any stage exists: creating a
+        # stage can already change them (PopenThread blanks the suspend key),
+        # and _return_terminal() must not write such a transient state back.
+        self._save_term_state()
+        term_state, self._term_state = self._term_state, None
         for i, spec in enumerate(specs):
             for mod in spec.decorators:
                 mod.decorate_spec_pre_run(self, spec, i)
@@ -224,7 +229,7 @@ class CommandPipeline:
                     pipeline_group, background
                 ):
                     self.term_pgid = pipeline_group
-                    self._save_term_state()
+                    self._term_state = term_state
             self.procs.append(proc)
         self.proc = self.procs[-1]
         self._pgid = pipeline_group  # process group for interrupt handling
@@ -640,7 +645,7 @@ class CommandPipeline:
             import termios
 
             self._term_state = termios.tcgetattr(sys.stdin.fileno())
-        except (termios.error, OSError, ValueError):
+        except (termios.error, OSError, ValueError, AttributeError):
             self._term_state = None
 
     def _return_terminal(self):
